@@ -44,6 +44,11 @@ def producers(env):
     P.append(dict(text='SUM(1/0)', code='#DIV/0!', kind='fn-raises'))
     P.append(dict(text='MAX(NA(),1)', code='#N/A', kind='fn-raises'))
     P.append(dict(text='SQRT(0-1)', code=None, kind='fn-raises-python'))
+    # operators that fail below the level of error values (a Python exception inside the operator) still produce an
+    # error VALUE: trappable, propagating, whatever its code
+    P.append(dict(text='-"abc"', code=None, kind='operator-python'))
+    P.append(dict(text='DATE(9999,12,31)*2', code=None, kind='operator-python'))
+    P.append(dict(text='DATE(9999,12,31)+DATE(9999,12,31)*400', code=None, kind='operator-python'))
     for i, c in enumerate(CODES8):
         P.append(dict(text='FRAISE(%d)' % i, code=c, kind='custom-raises'))
         P.append(dict(text='FRET(%d)' % i, code=c, kind='custom-returns'))
@@ -60,7 +65,7 @@ def producers(env):
     return P
 
 
-NPRODUCERS = 72
+NPRODUCERS = 75
 
 
 LITERALS = ['#NULL!', '#DIV/0!', '#VALUE!', '#REF!', '#NAME?', '#NUM!', '#N/A', '#ERROR!', '#GETTING_DATA']
